@@ -332,3 +332,22 @@ Proof.
   intros ks. split; [apply kernel_resolve|]. split; [apply kernel_resolve|].
   split; intros d; [apply resolve_swap|apply kernel_sym].
 Qed.
+
+(* ---- Registry.get: which keys reach the resolution ---- *)
+Lemma registry_prepare_spec rt org isann t o a :
+  registry_prepare rt org isann (mk_spec t o a) =
+  Ok (match keys_after rt org isann t a with (a', t', o') => mk_spec t' o' a' end).
+Proof.
+  unfold registry_prepare, keys_after, mk_spec. cbn. destruct (isann t); reflexivity.
+Qed.
+
+Theorem c10_keys d S rt org isann t o a e :
+  first_handler d S rt org isann (mk_spec t o a) e =
+  match keys_after rt org isann t a with
+  | (a', t', o') => Ok (emit d (resolve S (keys_of a' t' o') d) e)
+  end.
+Proof.
+  unfold first_handler. rewrite registry_prepare_spec.
+  destruct (keys_after rt org isann t a) as [[a' t'] o']. cbn [bind mk_spec k_getattr2 ns_get String.eqb Ascii.eqb Bool.eqb].
+  cbn. apply codegen_resolve.
+Qed.
